@@ -43,7 +43,11 @@ def obstruction_probe(xvc, rng, parallel):
         for x in names:
             os.unlink(rp.path(x))
         os.mkdir(rp.path(blocked))
-        args = ["--skip-git", "file", "recheck"] + (["--no-parallel"] if not parallel else [])
+        # --force selects every target (also the obstructed one, whose restore then fails); without it the
+        # obstructed path is not selected at all
+        force = rng.random() < 0.7
+        sc["force"] = force
+        args = ["--skip-git", "file", "recheck"] + (["--force"] if force else []) + (["--no-parallel"] if not parallel else [])
         rp.xvc(*args)
         for x in names:
             if x == blocked:
